@@ -589,6 +589,7 @@ class Effects:
             edges[f.key] = {g.key for _c, g in self.callees(f)}
         trans_w = {k: set(v) for k, v in direct.items()}
         trans_c = {k: set(v) for k, v in edges.items()}
+        trans_r = {f.key: set(self.summary(f)["reads"]) for f in funcs}
         changed = True
         while changed:
             changed = False
@@ -598,11 +599,15 @@ class Effects:
                     if nw:
                         trans_w[k] |= nw
                         changed = True
+                    nr = trans_r.get(c, set()) - trans_r[k]
+                    if nr:
+                        trans_r[k] |= nr
+                        changed = True
                     nc = trans_c.get(c, set()) - trans_c[k]
                     if nc:
                         trans_c[k] |= nc
                         changed = True
-        self._trans = {k: {"writes": trans_w[k], "calls": trans_c[k]} for k in trans_w}
+        self._trans = {k: {"writes": trans_w[k], "calls": trans_c[k], "reads": trans_r[k]} for k in trans_w}
         return self._trans
 
 
